@@ -1728,7 +1728,7 @@ GEN_RULE = ("cases are documents from the acceptance corpus, a structured mostly
             "Unicode), line mutations of those, and noisy line soup; distinct = distinct canonical input; ")
 
 PROPS = {
-    "C01": dict(modules=["C01", "C01Linear", "C01NoCrash", "C01NoCrashAll"], run=run_C01, translators=["parser_table", "dialects"],
+    "C01": dict(modules=["C01", "C01Linear", "C01NoCrash", "C01NoCrashAll", "C01Pipeline"], run=run_C01, translators=["parser_table", "dialects"],
                 rule=GEN_RULE + "plus Unicode soup with surrogates/NUL and all strings ≤ L over a 10-symbol alphabet; non-trivial = any input"),
     "C02": dict(modules=["C02", "C02Tree", "C02Text", "C02Siblings"], run=run_C02, translators=["parser_table", "grammar", "siblings"], exhaustive=True,
                 rule="all line-kind sequences up to length L through the real Parser (stub matcher) vs the grammar reading (Spec.Sentence) and the table model's events; sampled longer ones; real-text documents; non-trivial = accepted"),
